@@ -36,7 +36,10 @@ type Run struct {
 	Slow bool
 	// Full: in the thorough tier the run uses the larger (thorough) shape bounds; otherwise it keeps the quick shapes and
 	// only its delay bound grows. Only meaningful when ShapesByRun is set.
-	Full        bool
+	Full bool
+	// CrossEvery: thorough tier re-decides one assertion batch in CrossEvery with cvc5 (0 = every batch). cvc5 1.0 is ~7x
+	// slower than z3 on the crash families' ite-chain queries.
+	CrossEvery  int
 	ShapesByRun bool
 }
 
@@ -225,6 +228,7 @@ func cmdCheck(args []string) int {
 		ex := &sx.Explorer{P: prog, Cfg: cfg, Entry: entry, Workers: workers, SolverKind: "z3", TimeoutMS: 20000, Seed: seed}
 		if ti == 1 && os.Getenv("VERIF_NO_XSOLVER") == "" {
 			ex.CrossSolver = "cvc5"
+			ex.CrossEvery = r.CrossEvery
 		}
 		if r.TimeBudgetS[ti] > 0 {
 			ex.Deadline = time.Now().Add(time.Duration(r.TimeBudgetS[ti]) * time.Second)
